@@ -184,6 +184,26 @@ theorem tlv_lengths_exact_encode (c : Container) (hc : c ∈ Gen.schema) (v : Va
   rw [encode_eq_layout_gen c hc v hv] at h ⊢
   exact tlv_lengths_exact Gen.schema c v h
 
+/-- **for every well-formed value, whatever its total size**: the layout (= the encoding) of a `fits` value is its
+field bytes followed by complete well-formed blocks — every TLV at every nesting level declares exactly its length -/
+theorem tlv_lengths_exact_fits (S : Schema) (c : Container) (v : Val) (hS : layoutWF S = true)
+    (hv : fits S c v = true) :
+    ∃ (fb : Bytes) (sb : List (String × Bytes)), Layout.layout S c v = fb ++ (sb.map (·.2)).flatten ∧
+      ∀ p ∈ sb, p.1 ∈ c.slots.map (·.ty) ∧ Block S p.1 p.2 := by
+  cases v with
+  | node fs subs =>
+    simp only [fits, Bool.and_eq_true] at hv
+    simp only [Layout.layout]
+    obtain ⟨sb, hsb, hall⟩ := slots_blocks_fits S hS (3 * (Val.node fs subs).size + 3) c.slots subs none none hv.2
+    exact ⟨_, sb, by rw [hsb], hall⟩
+
+/-- a well-formed parameter is laid out (= encoded) as exactly one well-formed block -/
+theorem tlv_lengths_exact_fits_param (S : Schema) (hS : layoutWF S = true) (fuel : Nat) (ty : String) (v : Val)
+    (hv : fitsParam S fuel ty v = true) :
+    Block S ty (Layout.param S fuel ty v) ∧ Block S ty (encParam S fuel ty v) := by
+  have := param_block_fits S hS fuel ty v hv
+  exact ⟨this, by rw [(encParam_layout S hS fuel ty v hv).1]; exact this⟩
+
 example : (Layout.layout Gen.schema Gen.m_ROAccessReport sampleReport).length = 76 := by decide +kernel
 
 /-! ## decoding a conformant encoding -/
